@@ -31,6 +31,33 @@ SPACE = {'quick': 'single-feature projects x every visible object x {HIDDEN exac
 JOB_TIMEOUT = 2300
 
 
+def private_by_name(o: Any) -> bool:
+    """reference: the naming rules alone"""
+    from pydoctor import model
+    n = o.name
+    return (n.startswith('_') and not (n.startswith('__') and n.endswith('__'))) or (isinstance(o, model.Module) and n == '__main__')
+
+
+def default_private_objects(feats: Sequence[str], res: Dict[str, Any]) -> List[str]:
+    """objects private by default in the plain run; the implementation's classification is compared with the naming rules"""
+    out = []
+    with site.run(feats) as r:
+        s = r.system
+        if s is None:
+            return []
+        for k, o in s.allobjects.items():
+            if not o.isVisible or ' ' in k:
+                continue
+            ref = private_by_name(o)
+            if ref != o.isPrivate and not any(a in ('--privacy',) for a in site.project(feats)[1]):
+                res['violations'].append(core.violation(f'default-privacy-classification/{type(o).__name__}/{"private" if ref else "public"}-by-name',
+                                                        f'{list(feats)}: {k} is {"private" if ref else "public"} by the naming rules, classified {o.privacyClass.name}',
+                                                        {'kind': 'default-class', 'feats': list(feats)}))
+            if ref and o.isPrivate:
+                out.append(k)
+    return out
+
+
 def objects_of(feats: Sequence[str]) -> List[str]:
     with site.run(feats) as r:
         s = r.system
@@ -60,6 +87,8 @@ def judge_hidden(feats: Sequence[str], targets: Sequence[str], form: str, res: D
             o = r.system.allobjects.get(t)
             if o is None:
                 continue
+            if o.isVisible and o.name == '__main__':
+                continue        # Module.privacyClass pins a module named __main__ to PRIVATE: its privacy is not HIDDEN, the statement says nothing
             if o.isVisible:
                 res['violations'].append(core.violation(f'rule-ignored/{form}', f'HIDDEN rule ({form}) for {t} has no effect', case))
                 continue
@@ -85,7 +114,8 @@ def judge_private(feats: Sequence[str], target: str, form: str, depth: str, res:
     rule = 'PRIVATE:' + (target if form == 'exact' else pattern_for(target))
     case = {'kind': 'private', 'feats': list(feats), 'target': target, 'form': form, 'depth': depth}
     res['evals'] += 1
-    with site.run(feats, ['--privacy', rule, '--sidebar-expand-depth', depth]) as r:
+    # form 'default': no rule at all - the object is private by the naming rules of the statement (leading underscore, module __main__)
+    with site.run(feats, (['--privacy', rule] if form != 'default' else []) + ['--sidebar-expand-depth', depth]) as r:
         if r.exc or r.system is None:
             res['violations'].append(core.violation(f'run-failed/{r.exc_type}@{r.exc_site}', f'driver failed: {r.exc_type}', case))
             return
@@ -154,6 +184,8 @@ def run_job(job: Any, tier: str) -> Dict[str, Any]:
             judge_private(feats, t, 'exact', '2', res)
             if job[2] == 'thorough':
                 judge_private(feats, t, 'pattern', '3', res)
+        for t in default_private_objects(feats, res):
+            judge_private(feats, t, 'default', '2', res)
     else:
         import itertools
         for a, b in itertools.combinations(names, 2):
@@ -167,6 +199,8 @@ def replay(case: Dict[str, Any]) -> List[Dict[str, Any]]:
     res = core.result()
     if case['kind'] == 'hidden':
         judge_hidden(case['feats'], case['targets'], case['form'], res)
+    elif case['kind'] == 'default-class':
+        default_private_objects(case['feats'], res)
     else:
         judge_private(case['feats'], case['target'], case['form'], case['depth'], res)
     return res['violations']
